@@ -1,12 +1,223 @@
-/-! Executable model for property C16 (core-only).  Not built yet: the driver answers
-    `unimplemented` so that a check of this property cannot pass by accident. -/
+/-! Model of `PMap` (fp.go): the worker-count rule of `PMap`, and the goroutine system of
+    `pMapPreserveOrder` / `pMapNoOrder` as an interleaving transition system whose steps are the
+    atomic actions of the code (channel send / receive / close, the application of `f`,
+    `wg.Done`/`wg.Wait`).  Core-only.
+
+    feeder    : for i, v := range list { chJobs <- (i, v) } ; close(chJobs)            (chJobs has capacity n)
+    worker ×w : for job := range chJobs { r := f(job.v) ; chResult <- (job.i, r) } ; wg.Done()
+    closer    : wg.Wait() ; close(chResult)                                            (chResult has capacity w/3)
+    collector : for r := range chResult { store r } ; assemble the output              (the calling goroutine)
+
+    `pMapNoOrder` is the same system; the code does not transport the index there — it is kept as a
+    ghost so that "f is applied once to every *position*" can be stated; the output ignores it.  -/
+
 namespace FpgoVerif.C16
 
-/-- one protocol case line in, one canonical observation line out -/
-def handle (_line : String) : String := "unimplemented"
+/-! ## the sequential part of `PMap` -/
 
-/-- spec-level oracle: given the case line and the observation printed by the real code, decide
-    whether the *property* is violated (`violation <why>`) or not (`allowed <why>`). -/
-def judge (_line _impl : String) : String := "violation model-and-implementation-disagree"
+/-- `worker := len(list); if option != nil && option.FixedPool > 0 && option.FixedPool < worker { worker = option.FixedPool }`
+    (`none` = no option / option without pool size is `some 0`) -/
+def workerCount (fixedPool : Option Int) (n : Nat) : Nat :=
+  match fixedPool with
+  | none => n
+  | some p => if 0 < p ∧ p < (n : Int) then p.toNat else n
+
+/-! ## the goroutine system -/
+
+/-- where a worker goroutine is -/
+inductive WS (α β : Type)
+  | idle                          -- at `range chJobs`
+  | computing (i : Nat) (v : α)   -- received job i, `f v` is running
+  | sending (i : Nat) (r : β)     -- `f v` returned r, at `chResult <- …`
+  | done                          -- left the loop, `wg.Done()` executed
+
+structure St (α β : Type) where
+  fed : Nat                       -- feeder: next index to send
+  jobsClosed : Bool
+  chJobs : List (Nat × α)         -- FIFO buffer of chJobs
+  workers : List (WS α β)
+  chResult : List (Nat × β)       -- FIFO buffer of chResult
+  resultClosed : Bool
+  collected : List (Nat × β)      -- what the collector has received, in arrival order
+  collectorDone : Bool            -- the collector saw chResult closed and drained: PMap returns
+  panicked : Bool                 -- a send on a closed channel happened
+  apps : List Nat                 -- ghost: positions whose element `f` has been applied to, in completion order
+
+variable {α β : Type}
+
+def init (w : Nat) : St α β :=
+  { fed := 0, jobsClosed := false, chJobs := [], workers := List.replicate w .idle, chResult := [],
+    resultClosed := false, collected := [], collectorDone := false, panicked := false, apps := [] }
+
+def WS.isDone : WS α β → Bool | .done => true | _ => false
+def WS.isComputing : WS α β → Bool | .computing .. => true | _ => false
+def WS.isSending : WS α β → Bool | .sending .. => true | _ => false
+
+/-- One atomic action of one goroutine.  `l` the input list, `f` the function, `cap` the capacity of chResult.
+    A worker is picked by splitting the worker list around it. -/
+inductive Step (l : List α) (f : α → β) (cap : Nat) : St α β → St α β → Prop
+  /-- feeder: `chJobs <- (i, v)` (needs room in the buffer) -/
+  | feed (s : St α β) (v : α) : s.jobsClosed = false → l[s.fed]? = some v → s.chJobs.length < l.length →
+      Step l f cap s { s with fed := s.fed + 1, chJobs := s.chJobs ++ [(s.fed, v)] }
+  /-- feeder: `close(chJobs)` after the loop -/
+  | closeJobs (s : St α β) : s.jobsClosed = false → s.fed = l.length →
+      Step l f cap s { s with jobsClosed := true }
+  /-- worker: receives the next job -/
+  | take (s : St α β) (pre post : List (WS α β)) (i : Nat) (v : α) (rest : List (Nat × α)) :
+      s.workers = pre ++ .idle :: post → s.chJobs = (i, v) :: rest →
+      Step l f cap s { s with workers := pre ++ .computing i v :: post, chJobs := rest }
+  /-- worker: chJobs closed and drained: leaves the loop, `wg.Done()` -/
+  | exit (s : St α β) (pre post : List (WS α β)) :
+      s.workers = pre ++ .idle :: post → s.chJobs = [] → s.jobsClosed = true →
+      Step l f cap s { s with workers := pre ++ .done :: post }
+  /-- worker: `f v` returns -/
+  | compute (s : St α β) (pre post : List (WS α β)) (i : Nat) (v : α) :
+      s.workers = pre ++ .computing i v :: post →
+      Step l f cap s { s with workers := pre ++ .sending i (f v) :: post, apps := s.apps ++ [i] }
+  /-- worker: `chResult <- r` into the buffer -/
+  | sendBuf (s : St α β) (pre post : List (WS α β)) (i : Nat) (r : β) :
+      s.workers = pre ++ .sending i r :: post → s.resultClosed = false → s.chResult.length < cap →
+      Step l f cap s { s with workers := pre ++ .idle :: post, chResult := s.chResult ++ [(i, r)] }
+  /-- worker + collector: `chResult <- r` handed directly to the waiting collector (the only way when cap = 0) -/
+  | handoff (s : St α β) (pre post : List (WS α β)) (i : Nat) (r : β) :
+      s.workers = pre ++ .sending i r :: post → s.resultClosed = false → s.chResult = [] → s.collectorDone = false →
+      Step l f cap s { s with workers := pre ++ .idle :: post, collected := s.collected ++ [(i, r)] }
+  /-- worker: `chResult <- r` on a closed channel panics -/
+  | sendClosed (s : St α β) (pre post : List (WS α β)) (i : Nat) (r : β) :
+      s.workers = pre ++ .sending i r :: post → s.resultClosed = true → s.panicked = false →
+      Step l f cap s { s with panicked := true }
+  /-- closer: `wg.Wait()` returned (every worker has executed `wg.Done()`), `close(chResult)` -/
+  | closeResult (s : St α β) : (∀ x ∈ s.workers, x.isDone = true) → s.resultClosed = false →
+      Step l f cap s { s with resultClosed := true }
+  /-- collector: receives from the buffer -/
+  | collect (s : St α β) (e : Nat × β) (rest : List (Nat × β)) : s.chResult = e :: rest → s.collectorDone = false →
+      Step l f cap s { s with chResult := rest, collected := s.collected ++ [e] }
+  /-- collector: chResult closed and drained: the loop ends -/
+  | finish (s : St α β) : s.chResult = [] → s.resultClosed = true → s.collectorDone = false →
+      Step l f cap s { s with collectorDone := true }
+
+/-- reachability: any number of steps, any interleaving -/
+inductive Reach (l : List α) (f : α → β) (cap : Nat) : St α β → St α β → Prop
+  | refl (s) : Reach l f cap s s
+  | step {s t u} : Reach l f cap s t → Step l f cap t u → Reach l f cap s u
+
+/-! ## what the calling goroutine returns -/
+
+/-- `newListMap[k] = v` for every arrival in order, then `newListMap[i]`: the last write wins -/
+def mapGet (i : Nat) : List (Nat × β) → Option β
+  | [] => none
+  | (k, v) :: rest =>
+    match mapGet i rest with
+    | some r => some r
+    | none => if k = i then some v else none
+
+/-- pMapPreserveOrder: `for i := 0; i < len(list); i++ { newList[i] = newListMap[i] }` (zero value when missing) -/
+def orderedResult (zero : β) (n : Nat) (collected : List (Nat × β)) : List β :=
+  (List.range n).map (fun i => (mapGet i collected).getD zero)
+
+/-- pMapNoOrder: `newList := make([]R, n); i := 0; for v := range chResult { newList[i] = v; i++ }`
+    — `none` = index out of range (more results than elements) -/
+def noOrderResult (zero : β) (n : Nat) (collected : List (Nat × β)) : Option (List β) :=
+  if collected.length ≤ n then some (collected.map (·.2) ++ List.replicate (n - collected.length) zero) else none
+
+/-- the termination measure: every step strictly decreases it -/
+def measure (n : Nat) (s : St α β) : Nat :=
+  6 * (n - s.fed) + 5 * s.chJobs.length + 4 * s.workers.countP WS.isComputing + 3 * s.workers.countP WS.isSending
+  + 2 * s.chResult.length + s.workers.countP (fun x => !x.isDone)
+  + (if s.jobsClosed then 0 else 1) + (if s.resultClosed then 0 else 1) + (if s.collectorDone then 0 else 1)
+  + (if s.panicked then 0 else 1)
+
+/-! ## Protocol (driver side)
+
+    Case line:  `n=<n> pool=<nil|int> mode=<o|r> ty=<i|s> hold=<0|1> seed=<k>`
+    The list is `elem seed i` for `i < n`; `f x = 3x+1` (ints) / `x ↦ x ++ "!"` (strings `s%03d`).
+    Observation: `res=[…] once=ok maxc=<…> after=ok`; the result is sorted in RandomOrder mode.
+    `hold=1`: every call of `f` waits until as many calls are in progress as there are workers, so the maximal
+    number of concurrent applications is exactly the worker count and is printed (`maxc=<w>`);
+    `hold=2`: completion order forced to be descending by value (only generated when all n applications can be in flight);
+    `hold=0`: data-dependent sleeps, the harness prints `maxc=ok` when its gauge never exceeded the bound. -/
+
+def elem (seed i : Nat) : Nat := (i * 31 + seed * 7 + (i * i) % 5) % 97
+def fInt (x : Nat) : Nat := 3 * x + 1
+
+def pad3 (x : Nat) : String :=
+  let s := toString x
+  if x < 10 then "00" ++ s else if x < 100 then "0" ++ s else s
+
+structure Case where
+  n : Nat
+  pool : Option Int
+  random : Bool
+  str : Bool
+  hold : Bool
+  seed : Nat
+
+def parseKV (tok key : String) : Option String :=
+  match tok.splitOn "=" with
+  | [k, v] => if k = key then some v else none
+  | _ => none
+
+def parseCase (line : String) : Option Case :=
+  match (line.splitOn " ").filter (· ≠ "") with
+  | [a, b, c, d, h, e] =>
+    match parseKV a "n", parseKV b "pool", parseKV c "mode", parseKV d "ty", parseKV h "hold", parseKV e "seed" with
+    | some n, some p, some m, some t, some h, some s =>
+      match n.toNat?, (if p = "nil" then some none else p.toInt?.map some), s.toNat? with
+      | some n, some p, some s =>
+        if (m = "o" ∨ m = "r") ∧ (t = "i" ∨ t = "s") ∧ (h = "0" ∨ h = "1" ∨ h = "2") then some ⟨n, p, m = "r", t = "s", h = "1", s⟩
+        else none
+      | _, _, _ => none
+    | _, _, _, _, _, _ => none
+  | _ => none
+
+def inputList (c : Case) : List Nat := (List.range c.n).map (elem c.seed)
+
+def renderOut (c : Case) (x : Nat) : String := if c.str then "s" ++ pad3 x ++ "!" else toString (fInt x)
+
+def render (c : Case) (xs : List Nat) : String := "[" ++ " ".intercalate (xs.map (renderOut c)) ++ "]"
+
+/-- canonical form of the output: as is (ordered mode), sorted (RandomOrder; `f` is monotone on the inputs used) -/
+def leNat : Nat → Nat → Bool := fun a b => a ≤ b
+
+def canon (c : Case) (l : List Nat) : List Nat := if c.random then l.mergeSort leNat else l
+
+def obsLine (c : Case) (out : List Nat) (maxc : String) : String :=
+  s!"res={render c (canon c out)} once=ok maxc={maxc} after=ok"
+
+/-- implementation-model side of the observable: the worker count by the code's rule and the output every terminal
+    state of the goroutine system yields (`Props/C16`), canonicalised -/
+def expectedObs (c : Case) : String :=
+  obsLine c (inputList c) (if c.hold then toString (workerCount c.pool c.n) else "ok")
+
+def handle (line : String) : String :=
+  match parseCase line with
+  | none => "bad-case"
+  | some c => expectedObs c
+
+/-! ### Spec-level oracle: `Map(f, list)` (a permutation of it in RandomOrder mode — compared sorted), at most
+    `min(FixedPool, n)` goroutines (`n` when no pool size is given), every element once, returns after all
+    applications finished. -/
+def specWorkers (pool : Option Int) (n : Nat) : Nat :=
+  match pool with
+  | some p => if 0 < p then min p.toNat n else n
+  | none => n
+
+/-- does the implementation's `maxc=` token respect the bound?  (`ok`, or a number ≤ the bound) -/
+def maxcAllowed (tok : String) (bound : Nat) : Bool :=
+  tok = "ok" || (match tok.toNat? with | some k => k ≤ bound | none => false)
+
+def judge (line impl : String) : String :=
+  match parseCase line with
+  | none => "violation unparsable case"
+  | some c =>
+    match (impl.splitOn " maxc=") with
+    | [pre, post] =>
+      match post.splitOn " " with
+      | [mc, aft] =>
+        if pre ++ " maxc=ok " ++ aft = obsLine c (inputList c) "ok" ∧ maxcAllowed mc (specWorkers c.pool c.n) then
+          "allowed result = Map(f, list), each element once, concurrency within the bound, returned after all applications"
+        else s!"violation the property demands: {obsLine c (inputList c) "ok"} with maxc <= {specWorkers c.pool c.n}"
+      | _ => s!"violation the property demands: {obsLine c (inputList c) "ok"} with maxc <= {specWorkers c.pool c.n}"
+    | _ => s!"violation the property demands: {obsLine c (inputList c) "ok"} with maxc <= {specWorkers c.pool c.n}"
 
 end FpgoVerif.C16
